@@ -211,12 +211,16 @@ func updateDatabags(st *state.State, databag registry.JSONDataBag, reg *registry
 	err := st.Get("registry-databags", &databags)
 	if err != nil && !errors.Is(err, state.ErrNoState) {
 		return err
-	} else if errors.Is(err, &state.NoStateError{}) || databags[account] == nil || databags[account][registryName] == nil {
-		databags = map[string]map[string]registry.JSONDataBag{
-			account: {registryName: registry.NewJSONDataBag()},
-		}
+	}
+	if databags == nil {
+		databags = make(map[string]map[string]registry.JSONDataBag)
 	}
 
+	// only create what is missing: the databags of the other registries
+	// (of this and of other accounts) must be preserved
+	if databags[account] == nil {
+		databags[account] = make(map[string]registry.JSONDataBag)
+	}
 	databags[account][registryName] = databag
 	st.Set("registry-databags", databags)
 	return nil
